@@ -354,7 +354,7 @@ def gen_cases(ctx):
     signs = ["pos", "neg", "str"]
     # grid: every ordered kind pair x operation x ambient dependency; sign classes rotate so that every
     # (pair, op) meets all nine sign combinations over the dependencies and repetitions
-    reps = ctx.scale(1, 12)
+    reps = ctx.scale(1, 8)
     for rep in range(reps):
         for lk in KINDS:
             for rk in KINDS:
@@ -380,8 +380,24 @@ def gen_cases(ctx):
         cases.append(("expr", "o", op, ("D", "gaussian", [0.0, 1.0]), Pw))
         cases.append(("expr", "i", op, I12, ("D", "uniform", [-1.0, 3.0])))
     cases.append(("expr", "f", "div", Pw, Dw))
+    # witness of KF-C07-frechet-precise-straddle-rounding (open)
+    cases.append(("expr", "f", "div", ("D", "gaussian", [-1.0, 2.0]), ("N", -9, "int")))
+    cases.append(("spec", "f", "div", ("D", "gaussian", [-1.0, 2.0]), ("N", 9, "int")))
+    # dependency-sensitive pairs (always present): a zero-straddling constant with a zero-straddling p-box-like operand,
+    # where Frechet is strictly wider than p/o/i — an operator that forgets the ambient dependency is seen here
+    Ps = ("P", [-3] * 50 + [-1] * 50 + [1] * 100, [-2] * 50 + [0] * 50 + [4] * 100)
+    Ds, Ss = ("D", "gaussian", [0.5, 1.0]), ("S", [[-3, 1], [-1, 2], [0, 4]], [0.5, 0.25, 0.25])
+    Pp, Dp, Sp = ("P", [1] * 100 + [3] * 100, [2] * 100 + [5] * 100), ("D", "uniform", [1.0, 3.0]), ("S", [[1, 2], [2, 5]], [0.5, 0.5])
+    for dep in ("p", "o", "i"):
+        for H, Hp in ((Ps, Pp), (Ds, Dp), (Ss, Sp)):
+            cases.append(("expr", dep, "mul", ("I", -1, 2), H))
+            cases.append(("expr", dep, "mul", H, ("I", -1, 2)))
+            cases.append(("expr", dep, "div", ("I", -1, 2), Hp))
+            cases.append(("expr", dep, "div", H, ("I", 1, 2)))
+            cases.append(("expr", dep, "mul", ("N", -2, "int"), H))
+            cases.append(("expr", dep, "sub", ("I", -1, 2), H))
     # explicit-dependency methods on a p-box / DS structure with an operand of any kind
-    for _ in range(ctx.scale(160, 4000)):
+    for _ in range(ctx.scale(160, 2500)):
         lk = rng.choice(["pbox", "pbox", "dss"])
         rk = rng.choice(KINDS)
         op, dep = rng.choice(OPS), rng.choice(DEPS)
@@ -391,7 +407,7 @@ def gen_cases(ctx):
         exact = rng.random() < 0.7
         cases.append(("meth", dep, op, gen_opd(rng, lk, sl, exact), gen_opd(rng, rk, sr, exact)))
     # low x low: the embedded expression under every dependency (property: constant p-box of the interval result)
-    for _ in range(ctx.scale(60, 1500)):
+    for _ in range(ctx.scale(60, 800)):
         lk, rk = rng.choice(LOW), rng.choice(LOW)
         op = rng.choice(OPS)
         sl, sr = rng.choice(signs), rng.choice(signs)
@@ -402,7 +418,7 @@ def gen_cases(ctx):
         for dep in DEPS:
             cases.append(("spec", dep, op, l, r))
     # conversions
-    for _ in range(ctx.scale(40, 600)):
+    for _ in range(ctx.scale(40, 400)):
         k = rng.choice(KINDS)
         o = gen_opd(rng, k, rng.choice(signs), rng.random() < 0.7)
         cases.append(("conv", rng.choice(["p", "o"]), None, o, None))
@@ -438,6 +454,11 @@ def model_batch_par(reqs, workers=None):
         for i, o in zip(ix, out):
             res[i] = o
     return res
+
+
+def rounding_raise(feat, impl):
+    return (impl[0] == "err" and impl[1] == "Other" and feat["dep"] == "f" and feat["op"] in ("mul", "div")
+            and feat["lw0"] and feat["rw0"] and "str" in (feat["sl"], feat["sr"]))
 
 
 def divisor_has_zero(op, r):
@@ -560,13 +581,18 @@ def run(ctx: core.Check):
         else:  # spec: every operand converted first, on the real code
             impl = run_meth(dep, op, conv_first(l), conv_first(r))
         feat = {"form": form, "op": op, "dep": dep, "lkind": kl, "rkind": kr,
-                "sl": pbx.sign_class(*bounds(l))[:3], "sr": pbx.sign_class(*bounds(r))[:3]}
+                "sl": pbx.sign_class(*bounds(l))[:3], "sr": pbx.sign_class(*bounds(r))[:3],
+                "lw0": bounds(l)[0] == bounds(l)[1], "rw0": bounds(r)[0] == bounds(r)[1]}
         case = {"form": form, "dep": dep, "op": op, "l": short(l), "r": short(r), "impl": js(impl)}
         ctx.sample({k: v for k, v in case.items()})
         if impl[0] == "nonfinite":
             ctx.tie_ok() if model[0] == "err" else ctx.tie_bad(stream, case, js(impl), js(model))
             continue
-        if same(impl, model, exact):
+        if rounding_raise(feat, impl) and model[0] == "ok":
+            # Frechet product of two zero-width operands, one straddling zero: naive and Balch bounds coincide exactly, the
+            # imposition raises or not depending on binary64 rounding, which the exact model cannot mirror (reported below)
+            ctx.bump("tie-skipped:rounding-dependent-raise")
+        elif same(impl, model, exact):
             ctx.tie_ok()
         else:
             ctx.tie_bad(stream, case, js(impl), js(model))
